@@ -899,3 +899,101 @@ Fixpoint enum (p : cprog) : option (list (list caction)) :=
   | PLoop _ => None
   | PExit c => enum c
   end.
+
+(* ------------------------------------------------------------------ Part 7 *)
+(** Tie of the ticker automaton (part 3) to the GENERATED program of TickerControl::run.
+    The automaton knows the bar-state and the stop mutex only; the generated loop body also takes
+    the MultiState lock (draw, BarState::drop) and runs callbacks.  The abstraction is explicit:
+    [tproj] erases CAcq/CRel CMulti and CCallback, everything else (Bar, Stop, Slot, condvar wait,
+    tick, upgrade, Arc drop, set-stop, notify, spawn, join) is kept.  The automaton's [TCheckFin]
+    and the two outcomes of [TCheckStop] that do not park produce no event; its single parked state
+    [TSleep] corresponds to [CWaitRel CStop], the re-acquisition [TRelock] to the following [CAcq CStop]. *)
+Definition tk_relevant (a : caction) : bool :=
+  match a with CAcq CMulti | CRel CMulti | CCallback => false | _ => true end.
+Definition tproj (w : list caction) : list caction := filter tk_relevant w.
+
+(** the event of one ticker step taken from state [s] with time-out answer [o] *)
+Definition tevent (o : bool) (s : tsys) : list caction :=
+  match pc s with
+  | TUpgrade => [CUpgrade]
+  | TLockBar => [CAcq CBar]
+  | TCheckFin => []
+  | TFinUnlock => [CRel CBar]
+  | TFinDrop => [CDropArc]
+  | TTick => [CTick]
+  | TUnlockBar => [CRel CBar]
+  | TDropArc => [CDropArc]
+  | TLockStop => [CAcq CStop]
+  | TCheckStop => if flag s then [] else if o then [] else [CWaitRel CStop]
+  | TSleep => []
+  | TRelock => [CAcq CStop]
+  | TUnlockStopExit | TUnlockStopLoop => [CRel CStop]
+  | TDone => []
+  end.
+(** a trace of labels with the events of its ticker steps (environment labels produce none) *)
+Fixpoint lrun_ev (ls : list label) (s : tsys) : option (list caction * tsys) :=
+  match ls with
+  | [] => Some ([], s)
+  | l :: r =>
+      match lstep l s with
+      | Some s1 =>
+          match lrun_ev r s1 with
+          | Some (ev, s2) => Some ((match l with LT o => tevent o s | _ => [] end) ++ ev, s2)
+          | None => None
+          end
+      | None => None
+      end
+  end.
+
+(** a deterministic acceptor of the event sequences of ONE loop iteration of the automaton, used as
+    the abstract domain of [acheck] on the generated loop body (actions erased by [tproj] are
+    self-loops).  A1 = after the upgrade (accepting: the upgrade failed), AF = finished bar: guard
+    dropped, A7 = holding Stop at the head of wait_timeout_while, A8 = parked, AD = iteration over *)
+Inductive tacc := A0 | A1 | A2 | AF | A3 | A4 | A5 | A7 | A8 | AD.
+Definition acc_step (a : caction) (s : tacc) : option tacc :=
+  if negb (tk_relevant a) then Some s else
+  match s, a with
+  | A0, CUpgrade => Some A1
+  | A1, CAcq CBar => Some A2
+  | A2, CRel CBar => Some AF
+  | AF, CDropArc => Some AD
+  | A2, CTick => Some A3
+  | A3, CRel CBar => Some A4
+  | A4, CDropArc => Some A5
+  | A5, CAcq CStop => Some A7
+  | A7, CWaitRel CStop => Some A8
+  | A8, CAcq CStop => Some A7
+  | A7, CRel CStop => Some AD
+  | _, _ => None
+  end.
+Definition acc_final (s : tacc) : bool := match s with A1 | AD => true | _ => false end.
+Definition tacc_eqb (x y : tacc) : bool :=
+  match x, y with
+  | A0, A0 | A1, A1 | A2, A2 | AF, AF | A3, A3 | A4, A4 | A5, A5 | A7, A7 | A8, A8 | AD, AD => true
+  | _, _ => false
+  end.
+(** the executable check on the generated loop body *)
+Definition ticker_body_refines (b : cprog) : bool :=
+  match acheck tacc_eqb acc_step b [A0] with Some outs => forallb acc_final outs | None => false end.
+
+(** the three families of iteration traces of the automaton *)
+Definition it_upgrade_fails : list caction := [CUpgrade].
+Definition it_finished : list caction := [CUpgrade; CAcq CBar; CRel CBar; CDropArc].
+Fixpoint it_waits (n : nat) : list caction :=
+  match n with O => [] | S m => CWaitRel CStop :: CAcq CStop :: it_waits m end.
+Definition it_tick (n : nat) : list caction :=
+  [CUpgrade; CAcq CBar; CTick; CRel CBar; CDropArc; CAcq CStop] ++ it_waits n ++ [CRel CStop].
+
+(** all paths with every loop unrolled at most [k] times (finite) *)
+Fixpoint enum_k (k : nat) (p : cprog) : list (list caction) :=
+  let prod (A B : list (list caction)) := flat_map (fun t1 => map (fun t2 => t1 ++ t2) B) A in
+  match p with
+  | PAct a => [[a]]
+  | PSeq l => (fix go (l : list cprog) : list (list caction) :=
+                 match l with [] => [[]] | q :: r => prod (enum_k k q) (go r) end) l
+  | PBranch alts => (fix go (l : list cprog) : list (list caction) :=
+                       match l with [] => [] | q :: r => enum_k k q ++ go r end) alts
+  | PLoop b => (fix it (n : nat) : list (list caction) :=
+                  match n with O => [[]] | S m => [[]] ++ prod (enum_k k b) (it m) end) k
+  | PExit c => enum_k k c
+  end.
